@@ -185,7 +185,7 @@ def _quiet(fn, *a, **k):
         return fn(*a, **k)
 
 
-def open_and_read(spec, path):
+def open_and_read(spec, path, mode='r'):
     """open the prefix with the reader named by spec['fmt'] (unscaled, so
     that values are the stored REAL*4 bits) and read every tracer variable and
     tau0/tau1; whatever the reader raises propagates"""
@@ -193,7 +193,10 @@ def open_and_read(spec, path):
     cls = bpch1 if spec['fmt'] == 'bpch' else bpch2
     f = None
     try:
-        f = _quiet(cls, path, noscale=True)
+        if mode == 'r':
+            f = _quiet(cls, path, noscale=True)
+        else:
+            f = _quiet(cls, path, noscale=True, mode=mode)
         o = BpchObs()
         for d in ('time', 'latitude', 'longitude'):
             if d in f.dimensions:
